@@ -11,6 +11,7 @@
 package main
 
 import (
+	"net"
 	"fmt"
 	"os"
 	"runtime/pprof"
@@ -281,6 +282,16 @@ func serve(h *dnsfix.Handler, q *query, wire []byte) dnsfix.Result {
 	m := new(dns.Msg)
 	if err := m.Unpack(wire); err != nil {
 		panic(fmt.Sprintf("query %s does not unpack: %v", q.id(), err))
+	}
+	if q.ecs != nil && q.ecs.raw != nil {
+		// what unpacking a wire option with stray address bits yields (the packer above had masked them)
+		if o := m.IsEdns0(); o != nil {
+			for _, x := range o.Option {
+				if s, ok := x.(*dns.EDNS0_SUBNET); ok {
+					s.Address = append(net.IP(nil), q.ecs.raw.To16()...)
+				}
+			}
+		}
 	}
 	return h.Serve(m, q.resolver, false, maxAnswers)
 }
@@ -554,7 +565,7 @@ func main() {
 	if cnt.unexpectedRcode > 0 {
 		r.Note("%d cases were answered with an rcode other than the one the response class was built for; OPT/ECS were judged all the same", cnt.unexpectedRcode)
 	}
-	r.Set("rule", "configurations = 13 client-subnet map contents (no '8' map; '8' map with no subnets / only 0.0.0.0/0 / only ::/0 / both / host /32+/128 / nested 10/8>10.1/16>10.1.1/24>10.1.1.0/25 and 2001:db8::/32>/48>/56>/64, per family and combined, with defaults, with hosts, with the other family's default only) x resolver map absent/present; each compiled by the real compilers to CDB, RocksDB v1 keys, RocksDB v2 keys (and CDB once more read with db.SeparateBitMap, the per-family prefix-length sets) and opened in the real handler with the cache off and on. queries = {no EDNS, EDNS0 without options, cookie, option 65001, ECS, ECS+cookie, cookie+ECS} x ECS variants (family 1: source lengths {0,1,8,9,16,24,25,32}, thorough 0..32; family 2: {0,1,32,48,56,64,128}, thorough 0..128, plus IPv4-mapped addresses ::ffff:a.b.c.d with source lengths {96,104,112,120,121,128}, thorough 96..128; 6/7 base addresses on and off the declared subnets, masked to the source length, scope 0) x classes {positive, NODATA, NXDOMAIN, referral, REFUSED, BADVERS (EDNS version 1)} x {zone whose names select the client-subnet map, zone whose names do not} x 3 resolver addresses (in the resolver map v4, outside it, in it v6; the quick tier uses all three only for positive answers, the only class where the resolver is observable, and asks the names without a client-subnet map in the positive and REFUSED classes only; it combines the cookie with the ECS variants of the first base address of each family only). Every query is packed/unpacked, served by FBDNSDB.ServeDNS (max answers 16 so that no random selection happens), the response packed/unpacked and judged: OPT iff query had one; exactly one ECS iff query had one, family/source/address equal; scope = length of the longest declared subnet of the client's family containing the client network and not longer than it (brute force), 24/48 if the name has a map and nothing matches, 0 if the name has no '8' map; positive answers must be the untagged A plus the A of the deciding location (ECS match, else resolver match). With the cache on every query is asked twice in a row (second_asks_served_from_cache counts DNS_cache.hit increments). states = (database, cache mode, query, ask) cases; transitions = ServeDNS calls; evaluations = judged responses; nontrivial = cases where the model expects a scope or location decided by a map. Reported: one minimal (first in order no-cache < first ask < second ask, then query order) case per backend/kind/configuration/class/wanted-got shape.")
+	r.Set("rule", "configurations = 13 client-subnet map contents (no '8' map; '8' map with no subnets / only 0.0.0.0/0 / only ::/0 / both / host /32+/128 / nested 10/8>10.1/16>10.1.1/24>10.1.1.0/25 and 2001:db8::/32>/48>/56>/64, per family and combined, with defaults, with hosts, with the other family's default only) x resolver map absent/present; each compiled by the real compilers to CDB, RocksDB v1 keys, RocksDB v2 keys (and CDB once more read with db.SeparateBitMap, the per-family prefix-length sets) and opened in the real handler with the cache off and on. queries = {no EDNS, EDNS0 without options, cookie, option 65001, ECS, ECS+cookie, cookie+ECS} x ECS variants (family 1: source lengths {0,1,8,9,16,24,25,32}, thorough 0..32; family 2: {0,1,32,48,56,64,128}, thorough 0..128, plus IPv4-mapped addresses ::ffff:a.b.c.d with source lengths {96,104,112,120,121,128}, thorough 96..128; 6/7 base addresses on and off the declared subnets, masked to the source length, scope 0; plus the host addresses 10.1.1.1 and 2001:db8:1:1::1 presented UNMASKED with source lengths {8,16,24,25} / {32,48,56,64}, as a wire message can carry them - the client network is still address/source length) x classes {positive, NODATA, NXDOMAIN, referral, REFUSED, BADVERS (EDNS version 1)} x {zone whose names select the client-subnet map, zone whose names do not} x 3 resolver addresses (in the resolver map v4, outside it, in it v6; the quick tier uses all three only for positive answers, the only class where the resolver is observable, and asks the names without a client-subnet map in the positive and REFUSED classes only; it combines the cookie with the ECS variants of the first base address of each family only). Every query is packed/unpacked, served by FBDNSDB.ServeDNS (max answers 16 so that no random selection happens), the response packed/unpacked and judged: OPT iff query had one; exactly one ECS iff query had one, family/source/address equal; scope = length of the longest declared subnet of the client's family containing the client network and not longer than it (brute force), 24/48 if the name has a map and nothing matches, 0 if the name has no '8' map; positive answers must be the untagged A plus the A of the deciding location (ECS match, else resolver match). With the cache on every query is asked twice in a row (second_asks_served_from_cache counts DNS_cache.hit increments). states = (database, cache mode, query, ask) cases; transitions = ServeDNS calls; evaluations = judged responses; nontrivial = cases where the model expects a scope or location decided by a map. Reported: one minimal (first in order no-cache < first ask < second ask, then query order) case per backend/kind/configuration/class/wanted-got shape.")
 	r.Assume = []string{
 		"IPv6-family ECS addresses inside ::ffff:0:0/96 (source length >= 96) are judged against the declared IPv4 subnets lifted to ::ffff:a.b.c.d/(96+n), which is how every store keeps them; the scope is expected in the IPv6 family (96+n); mapped addresses with a source length below 96 are not generated",
 		"query scope is 0 and addresses are masked to the source length (RFC 7871 well-formed queries)",
